@@ -258,3 +258,33 @@ def shadow(modname, shim_names=("int", "ord", "str", "isinstance", "len"), extra
     if extra is None:
         _SHADOWS[key] = m
     return m
+
+
+def shadow_func(modname, qualname, shim_names=("int", "ord", "str", "isinstance", "len"), extra=None, wrap_raise=True):
+    """compile a lowered copy of ONE function/method (qualname 'Class.method' or 'func') of a real module,
+    from the module's current source file; it runs in a copy of the real module's globals plus the helpers
+    and builtin shims.  Use when re-executing the whole module as a shadow is undesirable."""
+    real = importlib.import_module(modname)
+    with open(real.__file__) as f:
+        src = f.read()
+    tree = ast.parse(src, real.__file__)
+    parts = qualname.split(".")
+    body = tree.body
+    node = None
+    for i, name in enumerate(parts):
+        node = next((n for n in body if _isinstance(n, (ast.FunctionDef, ast.ClassDef)) and n.name == name), None)
+        if node is None:
+            raise LookupError(f"{qualname} not found in {real.__file__}")
+        body = node.body
+    node.decorator_list = []
+    mod = ast.Module(body=[node], type_ignores=[])
+    mod = Lower(wrap_raise).visit(mod)
+    ast.fix_missing_locations(mod)
+    ns = dict(real.__dict__)
+    ns.update(HELPERS)
+    for n in shim_names:
+        ns[n] = shims.BUILTIN_SHIMS[n]
+    if extra:
+        ns.update(extra)
+    exec(compile(mod, real.__file__, "exec"), ns)
+    return ns[parts[-1]]
